@@ -32,6 +32,12 @@ def plan(tier, seed):
     return [{'kind': 'history', 'histories': 25 if tier == 'quick' else 120} for _ in range(n)]
 
 
+# the documented argument type is "an iterable of iterables": lists, bytearrays, tuples, one-shot generators and iterators, the same
+# object drawn twice, one row object repeated ([row] * n)
+SPRITE_VARIANTS = ('lists', 'lists', 'tuples', 'generator_of_lists', 'iterators', 'same_object_twice', 'same_row_object')
+RECT_VARIANTS = ('lists', 'lists', 'tuples', 'generator_of_lists', 'reversed_iterators', 'bytes_rows', 'same_object_twice')
+
+
 def _edge_amount(rng):
     """How far past an edge: -1, 0, +1, many."""
     return rng.choice((-3, -1, 0, 1, 2, 9, 40))
@@ -61,7 +67,10 @@ def gen_op(rng):
         for _ in range(h):
             rw = rng.randint(0, w) if ragged else w
             rows.append([rng.choice((TRANSPARENT, rng.randrange(16), rng.randrange(16))) for _ in range(rw)])
-        return [op, id, rows, xo, yo]
+        variant = rng.choice(SPRITE_VARIANTS)
+        if variant == 'same_row_object' and rows:
+            rows = [list(rows[0]) for _ in rows]
+        return [op, id, rows, xo, yo, variant]
     if op == 'get_sprite':
         id = rng.choice([15, 240, 255, rng.randrange(256), rng.randrange(256)])
         return [op, id, rng.choice((1, 1, 2, 3, 17)), rng.choice((1, 1, 2, 3, 17))]
@@ -87,7 +96,7 @@ def gen_op(rng):
         h = min(70, max(0, rng.choice((rng.randint(0, 6), 64 - y + _edge_amount(rng), 64 - y + 64 + rng.randint(-1, 2)))))
         ragged = rng.random() < 0.3
         rect = [[rng.randrange(256) for _ in range(rng.randint(0, w) if ragged else w)] for _ in range(h)]
-        return [op, rect, x, y]
+        return [op, rect, x, y, rng.choice(RECT_VARIANTS)]
     if op in ('get_flags', 'set_flags', 'clear_flags', 'reset_flags'):
         return [op, rng.choice((0, 255, rng.randrange(256))), rng.choice((0, 255, 1, 128, rng.randrange(256)))]
     if op == 'get_note':
@@ -125,14 +134,14 @@ def classify(op):
     """Mechanism key if the call exercises a (formerly) defective edge, else None."""
     name = op[0]
     if name == 'set_sprite':
-        _, id, rows, xo, yo = op
+        _, id, rows, xo, yo = op[:5]
         x0, y0 = (id % 16) * 8 + xo, (id // 16) * 8 + yo
         for dy, row in enumerate(rows):
             for dx, v in enumerate(row):
                 if v != TRANSPARENT and (x0 + dx == 128 or y0 + dy == 128) and x0 + dx <= 128 and y0 + dy <= 128:
                     return 'sprite-edge-128'
     if name == 'set_rect_tiles':
-        _, rect, x, y = op
+        _, rect, x, y = op[:4]
         for dy, row in enumerate(rect):
             if 64 <= y + dy <= 127 and any(x + dx <= 127 for dx in range(len(row))):
                 return 'maprect-row-64'
@@ -144,9 +153,24 @@ def apply(g, sh, op):
     name = op[0]
     a = op[1:]
     if name == 'set_sprite':
-        g.gfx.set_sprite(a[0], [bytearray(r) if i % 2 else list(r) for i, r in enumerate(a[1])],
-                         tile_x_offset=a[2], tile_y_offset=a[3])
+        variant = a[4] if len(a) > 4 else 'lists'
+        if variant == 'tuples':
+            obj = tuple(tuple(r) for r in a[1])
+        elif variant == 'generator_of_lists':
+            obj = (list(r) for r in a[1])
+        elif variant == 'iterators':
+            obj = iter([iter(list(r)) for r in a[1]])
+        elif variant == 'same_row_object':
+            obj = [list(a[1][0])] * len(a[1]) if a[1] else []
+        else:
+            obj = [bytearray(r) if i % 2 else list(r) for i, r in enumerate(a[1])]
+        g.gfx.set_sprite(a[0], obj, tile_x_offset=a[2], tile_y_offset=a[3])
         sh.set_sprite(a[0], a[1], a[2], a[3])
+        if variant == 'same_object_twice':
+            # the caller draws the same sprite object again somewhere else: it still is the sprite the caller made
+            id2 = (a[0] + 17) % 256
+            g.gfx.set_sprite(id2, obj, tile_x_offset=a[3], tile_y_offset=a[2])
+            sh.set_sprite(id2, a[1], a[3], a[2])
     elif name == 'get_sprite':
         got = g.gfx.get_sprite(a[0], tile_width=a[1], tile_height=a[2])
         return [bytes(r) for r in got], [bytes(r) for r in sh.get_sprite(a[0], a[1], a[2])]
@@ -162,8 +186,23 @@ def apply(g, sh, op):
         return ([bytes(r) for r in g.map.get_rect_pixels(a[0], a[1], width=a[2], height=a[3])],
                 [bytes(r) for r in sh.get_rect_pixels(*a)])
     elif name == 'set_rect_tiles':
-        g.map.set_rect_tiles(a[0], a[1], a[2])
+        variant = a[3] if len(a) > 3 else 'lists'
+        if variant == 'tuples':
+            obj = tuple(tuple(r) for r in a[0])
+        elif variant == 'generator_of_lists':
+            obj = (list(r) for r in a[0])
+        elif variant == 'reversed_iterators':
+            obj = reversed([reversed(list(reversed(r))) for r in reversed(a[0])])
+        elif variant == 'bytes_rows':
+            obj = [bytes(r) for r in a[0]]
+        else:
+            obj = [list(r) for r in a[0]]
+        g.map.set_rect_tiles(obj, a[1], a[2])
         sh.set_rect_tiles(a[0], a[1], a[2])
+        if variant == 'same_object_twice':
+            x2, y2 = (a[1] + 5) % 128, (a[2] + 3) % 64
+            g.map.set_rect_tiles(obj, x2, y2)
+            sh.set_rect_tiles(a[0], x2, y2)
     elif name == 'get_flags':
         return g.gff.get_flags(*a), sh.get_flags(*a)
     elif name in ('set_flags', 'clear_flags', 'reset_flags'):
@@ -202,7 +241,8 @@ def step(ctx, g, sh, op, history, init):
     key = classify(op)
     ctx.feature('op:' + name)
     if name == 'set_sprite':
-        _, id, rows, xo, yo = op
+        _, id, rows, xo, yo = op[:5]
+        ctx.feature('sprite_arg:' + (op[5] if len(op) > 5 else 'lists'))
         x0, y0 = (id % 16) * 8 + xo, (id // 16) * 8 + yo
         w = max([len(r) for r in rows] or [0])
         if w and rows:
@@ -213,7 +253,8 @@ def step(ctx, g, sh, op, history, init):
         if len({len(r) for r in rows}) > 1:
             ctx.feature('sprite_ragged')
     elif name == 'set_rect_tiles':
-        _, rect, x, y = op
+        _, rect, x, y = op[:4]
+        ctx.feature('rect_arg:' + (op[4] if len(op) > 4 else 'lists'))
         w = max([len(r) for r in rect] or [0])
         if w and rect:
             ctx.feature('rect_x_' + _edge_class(x + w - 128))
@@ -312,12 +353,47 @@ def run_history(ctx, rng, nops):
         g = carts.make_game(regions)
     sh = Shadow(init)
     ctx.feature('init_' + mode)
+    bystander = None
+    if rng.random() < 0.4:
+        # a second cart made from the first one's regions (sections built from what to_bytes() hands out, the way a cart is cloned or
+        # a sprite sheet reused): the history runs on one of the two, the other must keep its bytes
+        from pico8.gfx.gfx import Gfx
+        from pico8.gff.gff import Gff
+        from pico8.map.map import Map
+        from pico8.sfx.sfx import Sfx
+        from pico8.music.music import Music
+        from pico8.game.game import Game
+        c = Game(filename=None)
+        c.version = g.version
+        c.lua = g.lua
+        c.gfx = Gfx.from_bytes(g.gfx.to_bytes(), version=8)
+        c.gff = Gff.from_bytes(g.gff.to_bytes(), version=8)
+        c.map = Map.from_bytes(g.map.to_bytes(), version=8, gfx=c.gfx)
+        c.sfx = Sfx.from_bytes(g.sfx.to_bytes(), version=8)
+        c.music = Music.from_bytes(g.music.to_bytes(), version=8)
+        c.label = None
+        if rng.random() < 0.5:
+            g, bystander = c, g
+            ctx.feature('history_on_the_clone')
+        else:
+            bystander = c
+            ctx.feature('history_on_the_original')
     history = []
     for _ in range(nops):
         op = gen_op(rng)
         if not step(ctx, g, sh, op, history, init):
             return False
         history.append(op)
+        if bystander is not None and op[0].startswith('set_') or op[0] in ('clear_flags', 'reset_flags'):
+            if bystander is not None:
+                ctx.monitor('bystander_cart_comparisons')
+                if carts.game_memory(bystander) != init:
+                    now = carts.game_memory(bystander)
+                    d = next((i for i in range(min(len(now), len(init))) if now[i] != init[i]), min(len(now), len(init)))
+                    ctx.violation('after %s on one cart, byte 0x%x of ANOTHER cart (made from the first one\'s regions with from_bytes) '
+                                  'changed from %02x to %02x' % (op[0], d, init[d], now[d] if d < len(now) else -1),
+                                  {'init': init, 'ops': history, 'history': 'two carts, one cloned from the other via from_bytes(to_bytes())'})
+                    return False
         if len(history) > 400:
             break
     ctx.feature('histories_completed')
@@ -354,6 +430,12 @@ def gates(m, tier):
         for c in ('inside', 'touch', 'cross1', 'crossmany'):
             if f.get(ax + c, 0) < 10:
                 missed.append('edge class %s%s seen %d times' % (ax, c, f.get(ax + c, 0)))
+    for k in ['sprite_arg:' + v for v in set(SPRITE_VARIANTS)] + ['rect_arg:' + v for v in set(RECT_VARIANTS)]:
+        if f.get(k, 0) < 20:
+            missed.append('%s seen %d times' % (k, f.get(k, 0)))
+    if f.get('history_on_the_clone', 0) < 5 or f.get('history_on_the_original', 0) < 5 or mon.get('bystander_cart_comparisons', 0) < 500:
+        missed.append('two-cart histories: on the clone %d, on the original %d, bystander comparisons %d' % (
+            f.get('history_on_the_clone', 0), f.get('history_on_the_original', 0), mon.get('bystander_cart_comparisons', 0)))
     for k in ('sprite_transparent', 'sprite_ragged', 'rect_spans_shared_boundary', 'cell_row_31', 'cell_row_32', 'cell_row_63'):
         if f.get(k, 0) < 10:
             missed.append('%s seen %d times' % (k, f.get(k, 0)))
